@@ -16,6 +16,7 @@ import (
 )
 
 type reqOpts struct {
+	immediate bool // delete with gracePeriodSeconds=0
 	dryRun  bool
 	manager string
 	force   bool
@@ -435,17 +436,19 @@ func (s *Store) doDelete(gvk schema.GroupVersionKind, ns, name string, preUID, p
 	case "Foreground":
 		addFin("foregroundDeletion")
 	}
-	if len(fins) == 0 {
+	if len(fins) == 0 && !(s.Graceful[ki.GVK.GroupKind()] && !o.immediate) {
 		delete(s.objs, key)
 		delete(s.managed, key)
 		s.rv++ // a deletion is a state change
 		return nil
 	}
-	l := make([]any, len(fins))
-	for i, f := range fins {
-		l[i] = f
+	if len(fins) > 0 {
+		l := make([]any, len(fins))
+		for i, f := range fins {
+			l[i] = f
+		}
+		md["finalizers"] = l
 	}
-	md["finalizers"] = l
 	if MetaString(nw, "deletionTimestamp") == "" {
 		md["deletionTimestamp"] = s.now()
 		md["deletionGracePeriodSeconds"] = int64(0)
